@@ -230,9 +230,9 @@ def run(ctx):
     ctx.assumptions = ["integer ns arithmetic on os.lstat records", "clock injected through Dependencies::now() (in-process harness)",
                        "-daystart, -newerXt and birth time not judged; ages >= 0"]
     nw = common.NCPU
-    n = ctx.scale(320, 24000)
+    n = ctx.scale(320, 72000)
     ctx.pmap(age_worker, [(k, n // nw, ctx.seed) for k in range(nw)])
-    n2 = ctx.scale(160, 8000)
+    n2 = ctx.scale(160, 24000)
     ctx.pmap(newer_worker, [(k, n2 // nw, ctx.seed) for k in range(nw)])
     for key in ("kind:-atime", "kind:-ctime", "kind:-mmin", "kind:-cmin", "boundary_evaluations", "runs_with_ctime_boundary", "xy:ac", "xy:ca",
                 "xy:cc", "xy:mm", "evaluations_within_1ns", "discriminating_evaluations"):
